@@ -176,14 +176,18 @@ impl SampleQueueReceiver {
                 #[cfg(rustrtc_verif)]
                 crate::verif_sched::yield_point(crate::verif_sched::Q_LOCK);
                 let _guard = self.pop_lock.lock();
+                // Read the flag before popping: no push can follow it, so an empty pop
+                // after a set flag means the queue is drained. (Popping first could miss
+                // a sample sent right before the sender was dropped.)
+                #[cfg(rustrtc_verif)]
+                crate::verif_sched::yield_point(crate::verif_sched::Q_LOAD_CLOSED1);
+                let closed = self.closed.load(std::sync::atomic::Ordering::Acquire);
                 if let Some(sample) = self.queue.pop() {
                     #[cfg(rustrtc_verif)]
                     crate::verif_sched::yield_point(crate::verif_sched::Q_UNLOCK_RET);
                     return Some(sample);
                 }
-                #[cfg(rustrtc_verif)]
-                crate::verif_sched::yield_point(crate::verif_sched::Q_LOAD_CLOSED1);
-                if self.closed.load(std::sync::atomic::Ordering::Acquire) {
+                if closed {
                     #[cfg(rustrtc_verif)]
                     crate::verif_sched::yield_point(crate::verif_sched::Q_UNLOCK_EOS);
                     return None;
